@@ -225,50 +225,54 @@ Definition n_default_opts : bytes := str "default.opts".
 
 Definition INT_LIMIT : N := 2147483648.       (* msg.len is passed as `int len` *)
 
+(* the connection ends inside the message (read_all fails): the code as found exits ("recv ... failed"); since
+   fix e00936f only this client is dropped: recv_trace_end(), the rest of its stream is never read *)
+Definition lost (fx : bool) : hres := if fx then Handled AEnd [] else Died.
+
 (* recv_trace_data / _kernel_data / _perf_data *)
-Definition recv_numbered (mk : N -> bytes) (len : N) (t1 : transport) : hres :=
+Definition recv_numbered (fx : bool) (mk : N -> bytes) (len : N) (t1 : transport) : hres :=
   match read_all t1 4 with
-  | None => Died
+  | None => lost fx
   | Some (x, t2) =>
       if (INT_LIMIT <=? len) || (len <? 4) then Died      (* xmalloc of a negative size *)
       else match read_all t2 (N.to_nat (len - 4)) with
-           | None => Died
+           | None => lost fx
            | Some (d, t3) => Handled (AAppend (mk (dec_be x)) d) t3
            end
   end.
 
-Definition recv_metadata (len : N) (t1 : transport) : hres :=
+Definition recv_metadata (fx : bool) (len : N) (t1 : transport) : hres :=
   match read_all t1 4 with
-  | None => Died
+  | None => lost fx
   | Some (x, t2) =>
       let namelen := dec_be x in
       if (INT_LIMIT <=? len) || (INT_LIMIT <=? namelen) || (len <? namelen) then Died
       else match read_all t2 (N.to_nat namelen) with
-           | None => Died
+           | None => lost fx
            | Some (f, t3) =>
                if len <? 4 + namelen then Died
                else match read_all t3 (N.to_nat (len - 4 - namelen)) with
-                    | None => Died
+                    | None => lost fx
                     | Some (d, t4) => Handled (AAppend (cstr f) d) t4
                     end
            end
   end.
 
-Definition recv_info (len : N) (t1 : transport) : hres :=
+Definition recv_info (fx : bool) (len : N) (t1 : transport) : hres :=
   match read_all t1 HDR with
-  | None => Died
+  | None => lost fx
   | Some (h, t2) =>
       if (INT_LIMIT <=? len) || (len <? sizeof_uftrace_file_header) then Died
       else match read_all t2 (N.to_nat (len - sizeof_uftrace_file_header)) with
-           | None => Died
+           | None => lost fx
            | Some (i, t3) => Handled (AAppend n_info (swap_hdr h ++ i)) t3
            end
   end.
 
-Definition recv_dir_name (len : N) (t1 : transport) : hres :=
+Definition recv_dir_name (fx : bool) (len : N) (t1 : transport) : hres :=
   if INT_LIMIT <=? len then Died
   else match read_all t1 (N.to_nat len) with
-       | None => Died
+       | None => lost fx
        | Some (name, t2) => Handled (AMkdir (cstr name)) t2
        end.
 
@@ -287,21 +291,21 @@ Definition MSGHDR : nat := N.to_nat sizeof_uftrace_msg.
 
 (* cmds/recv.c:626 handle_client_sock for an EPOLLIN event: exactly one message.
    (find_client() == NULL is the [None] case of [apply] below: the server dies either way.) *)
-Definition handle_client_sock (t : transport) : hres :=
+Definition handle_client_sock (fx : bool) (t : transport) : hres :=
   match read_all t MSGHDR with
-  | None => Died                                            (* "message recv failed" *)
+  | None => lost fx                                            (* "message recv failed" *)
   | Some (h, t1) =>
       let magic := dec_be (firstn 2 h) in
       let ty := dec_be (firstn 2 (skipn 2 h)) in
       let len := dec_be (skipn 4 h) in
       if negb (magic =? UFTRACE_MSG_MAGIC) then Died        (* "invalid message" *)
       else match classify ty with
-           | KDir => recv_dir_name len t1
-           | KData => recv_numbered dat_name len t1
-           | KKernel => recv_numbered kernel_name len t1
-           | KPerf => recv_numbered perf_name len t1
-           | KInfo => recv_info len t1
-           | KMeta => recv_metadata len t1
+           | KDir => recv_dir_name fx len t1
+           | KData => recv_numbered fx dat_name len t1
+           | KKernel => recv_numbered fx kernel_name len t1
+           | KPerf => recv_numbered fx perf_name len t1
+           | KInfo => recv_info fx len t1
+           | KMeta => recv_metadata fx len t1
            | KEnd => Handled AEnd t1
            | KOther => Handled ANone t1
            end
@@ -374,6 +378,37 @@ Fixpoint del_client (k : N) (cl : list (N * bytes)) : list (N * bytes) :=
    writing to - or whose rotation (create_directory renames NAME to NAME.old after removing NAME.old) would remove
    a connected client's directory - is replaced by NAME.1, NAME.2, ... (fix: commit; [fx = false] is the code as
    found, which used the name as given). *)
+(* normalize_dirname (fix 0e27370): lexical normalisation of the announced name - empty and "." components go,
+   ".." removes the component before it (never a leading ".." or the root), "" becomes "." *)
+Fixpoint comps (b cur : bytes) : list bytes :=
+  match b with
+  | [] => [cur]
+  | x :: r => if x =? 47 then cur :: comps r [] else comps r (cur ++ [x])
+  end.
+Definition is_dotdot (c : bytes) : bool := list_eqb c [46; 46].
+Fixpoint clean (cs stack : list bytes) : list bytes :=           (* stack: last component first *)
+  match cs with
+  | [] => stack
+  | c :: r =>
+      if list_eqb c [] || list_eqb c [46] then clean r stack
+      else if is_dotdot c then
+        match stack with
+        | top :: st => if is_dotdot top then clean r (c :: stack) else clean r st
+        | [] => clean r (c :: stack)
+        end
+      else clean r (c :: stack)
+  end.
+Fixpoint join_slash (cs : list bytes) : bytes :=
+  match cs with
+  | [] => []
+  | [c] => c
+  | c :: r => c ++ 47 :: join_slash r
+  end.
+Definition norm (d : bytes) : bytes :=
+  let absolute := match d with 47 :: _ => true | _ => false end in
+  let body := join_slash (List.rev (clean (comps d []) [])) in
+  if absolute then 47 :: body else match body with [] => [46] | _ => body end.
+
 Definition in_use (cand : bytes) (cl : list (N * bytes)) : bool :=
   existsb (fun e => list_eqb (snd e) cand || list_eqb (snd e) (old_of cand)) cl.
 Definition cand_name (d : bytes) (i : N) : bytes := if i =? 0 then d else d ++ str "." ++ dec i.
@@ -385,7 +420,7 @@ Fixpoint pick_name (fuel : nat) (d : bytes) (i : N) (cl : list (N * bytes)) : op
   | S f => if in_use (cand_name d i) cl then pick_name f d (i + 1) cl else Some (cand_name d i)
   end.
 Definition mkdir_name (fx : bool) (d : bytes) (cl : list (N * bytes)) : option bytes :=
-  if fx then pick_name (2 * length cl + 2) d 0 cl else Some d.
+  if fx then pick_name (2 * length cl + 2) (norm d) 0 cl else Some d.
 
 (* effect of one handled message of socket k; None = pr_err (the server exits) *)
 Definition apply (fx : bool) (k : N) (a : action) (s : server) : option server :=
@@ -437,7 +472,7 @@ Fixpoint serve (fx : bool) (order : list N) (tm : tmap) (s : server) : option (s
   match order with
   | [] => Some (s, tm)
   | k :: r =>
-      match handle_client_sock (tm k) with
+      match handle_client_sock fx (tm k) with
       | Died => None
       | Handled a t' => match apply fx k a s with
                         | None => None
@@ -457,7 +492,7 @@ Fixpoint serve_w (fx : bool) (ws : list wake) (tm : tmap) (s : server) : option 
   match ws with
   | [] => Some (s, tm)
   | WIn k :: r =>
-      match handle_client_sock (tm k) with
+      match handle_client_sock fx (tm k) with
       | Died => None
       | Handled a t' => match apply fx k a s with
                         | None => None
@@ -593,6 +628,9 @@ Record client_case := {
   cc_files : option dirent;        (* ... and the rest is what the real send_task_file/send_map_files/send_sym_files/
                                       send_dbg_files/send_info_file made of the local metadata files (Some L) *)
   cc_abort : bool;                 (* true: no MEnd; the connection is reset once the server has read all *)
+  cc_eof : bool;                   (* no MEnd: the client closes its connection cleanly after its messages (EOF arrives as EPOLLIN) *)
+  cc_threads : bool;               (* the data messages were sent by several writer threads at the same time: their order on
+                                      the wire is any merge of the threads' sequences (cc_body lists them thread by thread) *)
   cc_split : nat;                  (* the server handles the first cc_split messages before the later clients of the
                                       case connect and the rest after them (>= all messages: strictly one after the other) *)
   cc_wsched : list Z;              (* short-write schedule given to the interposed write/writev *)
@@ -602,10 +640,12 @@ Record client_case := {
   cc_recv : option dirent          (* IMPL: directory written by the receiver *)
 }.
 Definition cc_msgs (c : client_case) : list msg :=
-  MDir (cc_dir c) :: cc_body c ++ (if cc_abort c then [] else [MEnd]).
+  MDir (cc_dir c) :: cc_body c ++ (if cc_abort c || cc_eof c then [] else [MEnd]).
 
 (* model of the sender under the same schedule == captured wire bytes *)
 Definition agree_send (c : client_case) : bool :=
+  if cc_threads c then (length (cc_wire c) =? length (concat (map enc (cc_msgs c))))%nat   (* same messages, some merge *)
+  else
   let '(st, fr) := send_all (wsched_of (cc_wsched c)) (cc_msgs c) in
   match st with WDone => list_eqb (concat fr) (cc_wire c) | _ => false end.
 (* model of the receiver on the captured bytes.  Order of the wake-ups: every client in turn is accepted
@@ -616,11 +656,12 @@ Definition wakes1 (c : client_case) : list wake :=
   let n := length (cc_msgs c) in
   WNew (cc_sock c) (segment (cc_rsched c) (cc_wire c)) ::
   map WIn (repeat (cc_sock c) (Nat.min (cc_split c) n)) ++
-  (if (n <=? cc_split c)%nat then (if cc_abort c then [WHup (cc_sock c)] else []) else []).
+  (if (n <=? cc_split c)%nat then (if cc_abort c then [WHup (cc_sock c)] else if cc_eof c then [WIn (cc_sock c)] else []) else []).
 Definition wakes2 (c : client_case) : list wake :=
   let n := length (cc_msgs c) in
   if (n <=? cc_split c)%nat then []
-  else map WIn (repeat (cc_sock c) (n - cc_split c)) ++ (if cc_abort c then [WHup (cc_sock c)] else []).
+  else map WIn (repeat (cc_sock c) (n - cc_split c)) ++
+       (if cc_abort c then [WHup (cc_sock c)] else if cc_eof c then [WIn (cc_sock c)] else []).
 Definition serve_case (cs : list client_case) (s : server) : option server :=
   match serve_w true (flat_map wakes1 cs ++ flat_map wakes2 cs) (fun _ => []) s with
   | None => None
@@ -652,7 +693,7 @@ Fixpoint serve_stream (fx : bool) (fuel : nat) (k : N) (t : transport) (s : serv
   match fuel with
   | O => None
   | S f =>
-      match handle_client_sock t with
+      match handle_client_sock fx t with
       | Died => None
       | Handled a t' =>
           match apply fx k a s with
